@@ -15,6 +15,8 @@ import concurrent.futures as cf
 import json
 import os
 import re
+import shutil
+import subprocess
 import time
 
 from vlib import core
@@ -40,6 +42,75 @@ def invariants_for(side, atomic):
     # the completion side as coded releases the slot before the caller reads it: that one clause (a known
     # finding) is excluded from the exhaustive runs with free interleaving and confirmed by an expected failure
     return ("TypeOK", "CountersConsistent", "PropertyHolds" if side == "sq" or atomic else "PropertyHoldsButStaleRead")
+
+
+# --------------------------------------------------------------------------------------------
+# the bounded argument lifted to the real counter width: inductive invariant of RingInd.tla, discharged by Apalache
+# --------------------------------------------------------------------------------------------
+# (name, kind, apalache arguments, what it says, quick tier?, timeout s)
+OBLIGATIONS = [
+    ("init_implies_indinv", "proof", ["--cinit=CInit", "--init=Init", "--inv=IndInv", "--length=0"],
+     "Init => IndInv for every start value of the u32 counters, every ring size 1..32768", True, 90),
+    ("indinv_implies_props", "proof", ["--cinit=CInit", "--init=IndInit", "--inv=Props", "--length=0"],
+     "IndInv => the state-predicate clauses of RingAbs (slot refused only when full, no slot handed out before consumed, flushed = visible, in-order stamps, pending completion never refused, nothing posted over an unreturned completion)", True, 90),
+    ("indinv_inductive", "proof", ["--cinit=CInit", "--init=IndInit", "--inv=IndInv", "--length=1"],
+     "IndInv /\\ Next => IndInv' (W = 2^32, symbolic ring sizes)", False, 900),
+    ("found_le_rejected", "expected_rejection", ["--cinit=CInitLE", "--init=IndInit", "--inv=Props", "--length=0"],
+     "code as found (`tail <= head`): Apalache exhibits head = u32::MAX, tail = 0, one completion pending and refused", True, 90),
+    ("found_plain_sub_rejected", "expected_rejection", ["--cinit=CInitPlain", "--init=IndInit", "--inv=Props", "--length=0"],
+     "code as found (`next - head` without wrapping): a state satisfying IndInv in which get_next_sqe_slot panics", True, 90),
+    ("found_plain_sub_not_inductive", "expected_rejection", ["--cinit=CInitPlain", "--init=IndInit", "--inv=IndInv", "--length=1"],
+     "code as found (`next - head`): the step into the panic breaks the invariant", False, 600),
+    ("probe_invariant_satisfiable_full_sq_across_wrap", "probe", ["--cinit=CInit", "--init=IndInit", "--inv=NotProbeSqFullAcrossWrap", "--length=0"],
+     "IndInv admits a full submission ring that straddles the u32 wrap", False, 90),
+    ("probe_pending_completion_across_wrap", "probe", ["--cinit=CInit", "--init=IndInit", "--inv=NotProbeCqPendingAcrossWrap", "--length=0"],
+     "IndInv admits pending completions with the tail wrapped and the head not", False, 90),
+    ("probe_held_reference_on_observed_slot", "probe", ["--cinit=CInit", "--init=IndInit", "--inv=NotProbeHeldJ", "--length=0"],
+     "IndInv admits a held reference into the observed slot", False, 90),
+]
+
+
+def run_apalache(work, name, kind, args, says, timeout):
+    """one obligation -> dict(name, kind, says, status, wall_s).  status: discharged | rejected_as_expected |
+    not_discharged (time limit) | refuted | not_rejected | error"""
+    d = os.path.join(work, "apalache-" + name)
+    shutil.rmtree(d, ignore_errors=True)
+    os.makedirs(d)
+    cmd = ["timeout", str(timeout), "apalache-mc", "check", "--out-dir=" + os.path.join(d, "out"), "--run-dir=" + os.path.join(d, "run")] + args + ["RingInd.tla"]
+    t0 = time.time()
+    p = subprocess.run(cmd, cwd=core.SPECS, stdout=subprocess.PIPE, stderr=subprocess.STDOUT, text=True)
+    wall = round(time.time() - t0, 1)
+    out = p.stdout
+    if p.returncode == 124:
+        status = "not_discharged"
+    elif "The outcome is: NoError" in out:
+        status = "discharged" if kind == "proof" else "not_rejected"
+    elif "The outcome is: Error" in out:
+        status = "refuted" if kind == "proof" else "rejected_as_expected"
+    else:
+        status = "error"
+    res = {"name": name, "kind": kind, "says": says, "status": status, "wall_s": wall, "time_limit_s": timeout}
+    if status in ("refuted", "not_rejected", "error"):
+        res["tail"] = out[-1500:]
+    shutil.rmtree(d, ignore_errors=True)
+    return res
+
+
+def crosscheck(work, name, cfg_lines, module):
+    """TLC checks that keep the typed copy RingInd.tla in step with Ring.tla"""
+    cfg = os.path.join(work, "RingIndX_%s.cfg" % name)
+    open(cfg, "w").write(cfg_lines)
+    res = core.run_tlc(module, cfg, workers=2, timeout=900, metadir=_md("xc" + name))
+    core.tlc_must_pass(res, "cross-check %s of RingInd against Ring" % name)
+    return res
+
+
+def x_cfg(ns, nc, h, js, jc, sq, cq):
+    return ("CONSTANTS\n  NS = %d\n  NC = %d\n  H = %d\n  Side = \"both\"\n  SqStarts <- %s\n  CqStarts <- %s\n  Wrapping = TRUE\n"
+            "  DebugChecks = TRUE\n  CqEmptyLE = FALSE\n  AtomicReapRead = TRUE\n  JS = %d\n  JC = %d\n"
+            "  KSet <- [RingInd] KSetTLC\n  Counters <- [RingInd] CountersTLC\n  Rets <- [RingInd] RetsTLC\n"
+            "INIT Init\nNEXT Next\nINVARIANTS IndInvHolds PropsHold InitIsInit\nPROPERTIES StepIsStep\nCHECK_DEADLOCK FALSE\n"
+            % (ns, nc, h, sq, cq, js, jc))
 
 
 def mc_and_dump(work, name, ns, nc, h, side, atomic, workers):
@@ -152,13 +223,30 @@ def run(tier):
         xfs.append((probe, probe, "reachability of the antecedent",
                     dict(ns=2, nc=2, h=8, side=sd, sq="AllStarts" if sd == "sq" else "OneStart", cq="AllStarts" if sd == "cq" else "OneStart")))
     # ---- phase A: all TLC model runs, in parallel (8 JVM worker threads in total at any time)
-    with cf.ThreadPoolExecutor(max_workers=4) as pool:
+    with cf.ThreadPoolExecutor(max_workers=4) as pool, cf.ThreadPoolExecutor(max_workers=2) as apool:
         f_tours = {t[0]: pool.submit(mc_and_dump, chk.work, *t, workers=2) for t in tours}
         f_sims = {s[0]: pool.submit(simulate_paths, chk.work, *s, seed=chk.seed) for s in sims}
         f_xf = [pool.submit(expect_failure, chk.work, n, inv, what, **kw) for (n, inv, what, kw) in xfs]
+        f_obl = [apool.submit(run_apalache, chk.work, n, kind, args, says, tmo) for (n, kind, args, says, q, tmo) in OBLIGATIONS if q or not quick]
+        xcs = [("sq2", x_cfg(2, 2, 8, 1, 0, "AllStarts", "OneStart"), "RingIndX.tla"), ("cq2", x_cfg(2, 2, 8, 0, 1, "OneStart", "AllStarts"), "RingIndX.tla")]
+        if not quick:
+            xcs += [("sq4", x_cfg(4, 2, 8, 3, 0, "AllStarts", "OneStart"), "RingIndX.tla"), ("cq4", x_cfg(2, 4, 8, 0, 2, "OneStart", "AllStarts"), "RingIndX.tla"),
+                    ("n1", x_cfg(1, 1, 4, 0, 0, "AllStarts", "AllStarts"), "RingIndX.tla"),
+                    ("self16", open(os.path.join(core.SPECS, "RingInd_MC.cfg")).read(), "RingInd_MC.tla")]
+        f_xc = [pool.submit(crosscheck, chk.work, n, c, m) for (n, c, m) in xcs]
         r_tours = {k: f.result() for k, f in f_tours.items()}
         r_sims = {k: f.result() for k, f in f_sims.items()}
         r_xf = [f.result() for f in f_xf]
+        r_obl = [f.result() for f in f_obl]
+        r_xc = [f.result() for f in f_xc]
+    for r in r_xc:
+        chk.add_tlc(r)
+    ran = {o["name"] for o in r_obl}
+    r_obl += [{"name": n, "kind": kind, "says": says, "status": "not_run_in_this_tier"} for (n, kind, args, says, q, tmo) in OBLIGATIONS if n not in ran]
+    broken = [o for o in r_obl if o["status"] in ("refuted", "not_rejected", "error")]
+    if broken:
+        raise core.ToolError("RingInd.tla obligations inconsistent with their expectation (a defect of the specification, not of the code): %s" % json.dumps(broken)[:3000])
+    core.log("Apalache: " + ", ".join("%s=%s(%.0fs)" % (o["name"], o["status"], o.get("wall_s", 0)) for o in r_obl if "wall_s" in o))
     core.log("phase A (TLC: %d exhaustive configs, %d simulations, %d expected failures) %.1fs" % (len(tours), len(sims), len(xfs), time.time() - t0))
     # ---- phase B: the real code along the tours / behaviours (B1), random runs
     t1 = time.time()
@@ -259,8 +347,21 @@ def run(tier):
     chk.extra["simulated"] = sim_stats
     chk.extra["random"] = rnd_stats
     chk.extra["expected_failures_confirmed"] = [x for _, x in r_xf]
+    proofs = [o for o in r_obl if o["kind"] == "proof"]
+    attempted = [o for o in proofs if o["status"] != "not_run_in_this_tier"]
+    chk.extra["obligations"] = len(attempted)
+    chk.extra["discharged"] = sum(1 for o in attempted if o["status"] == "discharged")
+    chk.extra["checker_cmd"] = "timeout <limit> apalache-mc check --cinit=CInit --init=<Init|IndInit> --inv=<IndInv|Props> --length=<0|1> RingInd.tla (specs/, one run per obligation, see obligation_details)"
+    chk.extra["trusted_base"] = ["Apalache 0.58 + Z3", "TLC (refinement Ring => RingInd at width 2H)", "RingInd.tla IndInv/Props as the reading of the property's state predicates"]
+    chk.extra["obligation_details"] = r_obl
+    chk.extra["obligations_summary"] = "%d of %d proof obligations discharged by Apalache at W = 2^32 with symbolic ring sizes (%s); %d expected rejections and probes confirmed" % (
+        sum(1 for o in proofs if o["status"] == "discharged"), len(proofs),
+        ", ".join("%s: %s" % (o["name"], o["status"]) for o in proofs),
+        sum(1 for o in r_obl if o["status"] == "rejected_as_expected"))
+    chk.extra["typed_copy_crosschecks"] = [n for (n, c, m) in xcs]
     chk.extra["exhaustive_scope"] = "state graphs of the listed bounded configurations (ring sizes, H) only; simulated and random runs sample"
     chk.assumptions = [
+        "real counter width: RingInd.tla is a typed copy of Ring.tla's actions (TLC checks that every Ring transition is a RingInd transition under the width-2H mapping); Apalache proves its inductive invariant for W = 2^32, every start value and every power-of-two ring size up to 32768, under the read-before-the-kernel-acts discipline; an obligation that hits its time limit is reported as not_discharged and proves nothing",
         "interleaving at call granularity (application call / kernel consume k / kernel post k); a concurrently running kernel thread (SQPOLL) and memory-ordering effects are not explored",
         "model counters 0..2H-1 stand for real 2^32-H+m: exactly one u32 wrap per run in toured configurations; random runs start at 2^32-d (d small), at 0, at u32::MAX or far from the wrap",
         "the simulated kernel consumes through sq_array and decides from the shared head/tail words only, like the real one; kernel overflow handling of a full completion ring is not modelled (it does not post)",
